@@ -11,6 +11,8 @@ Emits
   * depth_warn_key : list fi_field                    which FunctionInfo fields the message text interpolates
                                                       (the text is the key of the de-duplication)
   * depth_warn_mentions_limit : bool                  is `max_depth` interpolated as well
+  * unsupported_opcode_is_halmos_exception : bool     what the catch-all arm of the opcode dispatch raises
+  * run_message_resets_logs : bool                    does SEVM.run_message replace / clear self.logs
 Fail-closed: the cut must be exactly `warn(<f-string>[, allow_duplicate=<const>])` followed by `continue`,
 directly in the interpreter loop; a local used in the f-string must be a single-assignment alias of a
 `self.fun_info.<field>` / `self.options.depth`.
@@ -24,6 +26,7 @@ SRC = "sevm.py"
 OUT = "GenCutWarn.v"
 
 FIELDS = {"contract_name": "FContract", "name": "FName", "sig": "FSig", "selector": "FSelector"}
+HALMOS_EXC = {"HalmosException", "NotConcreteError"}
 NEEDLE = "incomplete execution due to the specified limit: --depth"
 
 
@@ -45,6 +48,48 @@ def _aliases(fn):
                     if isinstance(n, ast.Assign) and len(n.targets) == 1 and isinstance(t, ast.Name):
                         val[m.id] = ast.unparse(n.value)
     return {k: v for k, v in val.items() if count.get(k) == 1}
+
+
+def _unsupported_opcode(run):
+    """the final `else:` of the opcode dispatch chain of SEVM.run: what is raised for an opcode without a handler"""
+    chains = [n for n in ast.walk(run) if isinstance(n, ast.If) and ast.unparse(n.test).startswith("OP_PUSH1 <= opcode")]
+    if len(chains) != 1:
+        raise TranslateError(f"SEVM.run: the opcode dispatch chain (if OP_PUSH1 <= opcode ...) found {len(chains)} times")
+    node, n_arms = chains[0], 0
+    while len(node.orelse) == 1 and isinstance(node.orelse[0], ast.If):
+        node = node.orelse[0]
+        n_arms += 1
+    if n_arms < 40 or not node.orelse:
+        raise TranslateError("SEVM.run: the opcode dispatch chain has no final else")
+    body = [st for st in node.orelse if not (isinstance(st, ast.Expr) and isinstance(st.value, ast.Constant))]
+    if len(body) != 1 or not isinstance(body[0], ast.Raise) or not isinstance(body[0].exc, ast.Call) or not isinstance(body[0].exc.func, ast.Name):
+        raise TranslateError(f"SEVM.run: the catch-all arm of the dispatch is not a single `raise <Exception>(...)`: {[ast.unparse(x)[:60] for x in body]}")
+    return body[0].exc.func.id
+
+
+def _run_message_logs(tree):
+    """does SEVM.run_message touch self.logs (an invariant test drives ONE SEVM over every frontier state and reads
+    sevm.logs once at the end); and is self.logs created once, in __init__"""
+    rm = find_function(tree, "run_message", cls="SEVM")
+    init = find_function(tree, "__init__", cls="SEVM")
+    run = find_function(tree, "run", cls="SEVM")
+
+    def writes_logs(fn):
+        out = []
+        for n in ast.walk(fn):
+            tg = n.targets if isinstance(n, ast.Assign) else [n.target] if isinstance(n, (ast.AugAssign, ast.AnnAssign)) else []
+            out += [t for t in tg if ast.unparse(t) in ("self.logs", "self.logs.bounded_loops")]
+            if isinstance(n, ast.Call) and isinstance(n.func, ast.Attribute) and n.func.attr in ("clear", "pop", "remove") and ast.unparse(n.func.value).startswith("self.logs"):
+                out.append(n)
+            if isinstance(n, ast.Delete) and any(ast.unparse(t).startswith("self.logs") for t in n.targets):
+                out.append(n)
+        return out
+
+    if [ast.unparse(n) for n in ast.walk(init) if isinstance(n, ast.Assign) and ast.unparse(n.targets[0]) == "self.logs"] != ["self.logs = HalmosLogs()"]:
+        raise TranslateError("SEVM.__init__: expected exactly one `self.logs = HalmosLogs()`")
+    if writes_logs(run):
+        raise TranslateError("SEVM.run: rewrites self.logs")
+    return bool(writes_logs(rm))
 
 
 def translate(src_text):
@@ -101,6 +146,8 @@ def translate(src_text):
     from .t_runtest import _truthy
 
     guard = _truthy(Translator(names=names), cut.test)
+    unsupported = _unsupported_opcode(fn)
+    resets = _run_message_logs(tree)
     # the cut must sit directly in the interpreter loop (`while`/`for` over the worklist), inside at most a try
     b = lambda x: "true" if x else "false"  # noqa: E731
     lines = [
@@ -118,9 +165,24 @@ def translate(src_text):
         f"Definition depth_warn_key : list fi_field := [{'; '.join(key)}].",
         f"Definition depth_warn_mentions_limit : bool := {b(limit)}.",
         "",
+        "(* the catch-all arm of the opcode dispatch: an opcode without a handler raises this exception class;",
+        "   is it a HalmosException (the path is STUCK) -- decided by name here, checked against the imported class hierarchy *)",
+        f"Definition unsupported_opcode_is_halmos_exception : bool := {b(unsupported in HALMOS_EXC)}.",
+        "",
+        "(* does SEVM.run_message replace / clear self.logs (created once in __init__) at every transaction *)",
+        f"Definition run_message_resets_logs : bool := {b(resets)}.",
+        "",
     ]
-    return "\n".join(lines), {"dedup": dedup, "key": key, "limit": limit}
+    return "\n".join(lines), {"dedup": dedup, "key": key, "limit": limit, "unsupported": unsupported, "resets": resets}
 
 
 def selfcheck(info):
-    return []
+    from halmos import exceptions as E
+
+    bad = []
+    cls = getattr(E, info["unsupported"], None)
+    if cls is None:
+        bad.append(f"exception class {info['unsupported']} not found in halmos.exceptions")
+    elif issubclass(cls, E.HalmosException) != (info["unsupported"] in HALMOS_EXC):
+        bad.append(f"{info['unsupported']}: subclass of HalmosException = {issubclass(cls, E.HalmosException)}, translated otherwise")
+    return bad
